@@ -263,6 +263,8 @@ class Interp(ModelMixin):
 
     def ex_stmt(self, stmt, st: State):
         self.stats['stmts'] += 1
+        if self.stats['stmts'] > 1500000:
+            raise AnalysisError(f'analysis budget exceeded in {self.entry} (more than 1.5M abstract statement executions)')
         m = getattr(self, 'st_' + type(stmt).__name__, None)
         if m is None:
             raise AnalysisError(f'{self.site(stmt, st)[0]}:{stmt.lineno}: unsupported statement {type(stmt).__name__}')
@@ -459,6 +461,19 @@ class Interp(ModelMixin):
                     res.append((('raise', o.exc), s))
                 else:
                     res.extend(self._lift(self.setattr_(o, target.attr, val, s, node)))
+            return res
+        if isinstance(target, ast.Subscript) and isinstance(target.slice, ast.Slice):
+            res = []
+            for c, s in self.ev(target.value, st):
+                if isinstance(c, Raise):
+                    res.append((('raise', c.exc), s))
+                    continue
+                bounds = [b for b in (target.slice.lower, target.slice.upper, target.slice.step) if b is not None]
+                for bv, s2 in self.ev_all(bounds, s):
+                    if isinstance(bv, Raise):
+                        res.append((('raise', bv.exc), s2))
+                    else:
+                        res.extend(self._lift(self.model_slice_store(c, target.slice, bv, val, s2, node)))
             return res
         if isinstance(target, ast.Subscript):
             res = []
@@ -748,6 +763,8 @@ class Interp(ModelMixin):
                     nxt = joiner(nxt)
                 if len(nxt) > 1:
                     nxt = self.join_accum(nxt, entry_serial)
+                if len(nxt) > 300:
+                    raise AnalysisError(f'loop at {self.site(node, st)[:2]}: {len(nxt)} distinct abstract states at the loop head (state explosion)')
                 work = nxt
         for _, s in exits:
             s.frame.loops -= 0   # loop ids are never reused inside one frame activation
